@@ -128,6 +128,11 @@ class _Builder:
                 toks.append(_quote(rng, f"{self.tid}.{b}.{g}"))
             toks.append("weighted")
             toks += self.weight()
+        if n >= 3 and not numeric and rng.random() < 0.1:
+            # the same label listed twice in one return statement (legal: its shares add up)
+            labs = [i for i, t in enumerate(toks) if i + 1 < len(toks) and toks[i + 1] == "weighted"]
+            a, b = rng.sample(labs, 2)
+            toks[b] = toks[a]
         # avoid all-zero weight vectors most of the time (they are a legal text whose calls raise)
         ws = [toks[i + 1] for i, t in enumerate(toks) if t == "weighted"]
         if all(float(w) == 0.0 for w in ws) and rng.random() < 0.9:
@@ -337,6 +342,40 @@ def near_variant_of(rng, prog, tid):
     q.kind = "valid"
     q.note = "near-duplicate (%s) of %s" % (how, prog.tid)
     return q
+
+
+def comment_lookalike_pair(rng, prog, tid_a, tid_b):
+    """Two texts that are identical except INSIDE the comment-looking part of one string literal
+    ('x // a' vs 'x // b', or 'x /* a */' vs 'x /* b */'); the literal is followed by a line break, so a naive
+    comment stripper maps both to the same text although they are different experiments (different group label / salt)."""
+    toks = list(prog.tokens)
+    idx = [i for i, t in enumerate(toks) if len(t) >= 2 and t[0] in "\"'" and t[-1] == t[0]]
+    if not idx:
+        return None
+    i = rng.choice(idx)
+    style = rng.choice(["line", "block"])
+    quote = rng.choice(["'", '"'])
+    body = toks[i][1:-1]
+    out = []
+    layout_seed = rng.randrange(1 << 30)
+    for tid, tail in ((tid_a, "a1"), (tid_b, "b2")):
+        q = Program()
+        q.tid = tid
+        q.name, q.salt, q.splitters = prog.name, prog.salt, list(prog.splitters)
+        q.cond_fields, q.literals, q.n_returns = list(prog.cond_fields), dict(prog.literals), prog.n_returns
+        t2 = list(toks)
+        lit = body + (" // " + tail if style == "line" else " /* " + tail + " */")
+        t2[i] = quote + lit + quote + "\n"          # the line break belongs to the token: both texts share the layout
+        if i >= 2 and toks[i - 1] == ":" and toks[i - 2] == "salt":
+            q.salt = lit
+        q.tokens = t2
+        import random as _random
+
+        q.text = render(_random.Random(layout_seed), t2, p_comment=0.0, compact=True)
+        q.kind = "valid"
+        q.note = "comment-lookalike (%s) of %s" % (style, prog.tid)
+        out.append(q)
+    return out
 
 
 # ---------------------------------------------------------------------------
